@@ -103,3 +103,16 @@ def core_periphery(rng, weighted=False, n_comp=None, connected_contiguous=False)
     for _ in range(0 if connected_contiguous else rng.randint(0, 2)):
         h.add_node(new())
     return h
+
+
+def sharing_256_nodes(rng):
+    """Hyperedges that share 256, 257 and 258 nodes with one another (plus a few small ones): intersection sizes beyond a byte."""
+    import hypergraphx as hgx
+
+    base = rng.choice([0, 1000])
+    A = tuple(range(base, base + 300))
+    B = tuple(range(base, base + 256)) + tuple(range(base + 400, base + 440))
+    C = tuple(range(base, base + 257)) + tuple(range(base + 500, base + 520))
+    D = tuple(range(base, base + 258)) + (base + 600,)
+    small = [(base, base + 700), (base + 700, base + 701, base + 1), (base + 299, base + 702)]
+    return hgx.Hypergraph([A, B, C, D] + small)
